@@ -503,3 +503,58 @@ def setterpure(pid):
         res.floor("metadata stores in API closures", n, ctx.table("floors").get("setval_sites", 0))
         return res
     return run
+
+
+def setterkind(pid):
+    """R-SETTERKIND: the public metadata setters (set_state_bits, set_storage_clsid, set_created_time,
+    set_modified_time, touch), the closures they build and the private helpers only they call test an entry's object
+    type against Stream only.  The property treats storages and the root alike (`CLSIDs set on storages or the root`,
+    `times set on storages or the root`); a test against Storage or Root inside a setter separates the two, so one of
+    them silently keeps its old value while the call answers Ok."""
+    def run(ctx):
+        res = RuleResult("R-SETTERKIND(%s)" % pid, "inside the public metadata setters, their closures and the helpers only they call, every object-type test is against ObjType::Stream (storages and the root are never told apart)")
+        fns = ctx.fx.fns
+        roots = [f for f in fns.values() if re.match(r"^CompoundFile::<F>::(set_\w+|touch\w*)$", f.path)]
+        inset = {f.path for f in roots}
+        callers = {}
+        for p, cs in ctx.cg.calls.items():
+            for c in cs:
+                for g in c.all_targets():
+                    callers.setdefault(g.path, set()).add(p)
+        changed = True
+        while changed:
+            changed = False
+            for p, f in fns.items():
+                if p in inset or not p.startswith("CompoundFile::<F>::"):
+                    continue
+                cl = callers.get(p, set())
+                parent = p.rsplit("::{closure", 1)[0] if "::{closure" in p else None
+                if (parent in inset) or (cl and cl <= inset):
+                    inset.add(p)
+                    changed = True
+        n = 0
+        for p in sorted(inset):
+            f = fns[p]
+            g = None
+            for b, blk in enumerate(f.blocks):
+                if blk["term"]["t"] != "switch" or blk["cleanup"]:
+                    continue
+                g = g or guards(ctx, f)
+                t = blk["term"]
+                vals = [str(x) for x, _ in t["arms"]] + ["otherwise"]
+                seen = set()
+                for k in range(len(vals)):
+                    for a in g.describe_all(b, vals[k], vals):
+                        m = re.search(r"\.obj_type is (?:not )?ObjType::(\w+)$", a)
+                        if not m or a in seen:
+                            continue
+                        seen.add(a)
+                        n += 1
+                        if m.group(1) != "Stream":
+                            res.fail(Finding(res.rule, "R-SETTERKIND/%s/%s" % (p, m.group(1)), "the setter tests the object type against ObjType::%s (%s): storages and the root are told apart, so a value set on one of them is silently dropped or refused" % (m.group(1), a[-60:]), f, t["span"]))
+                        else:
+                            res.ok({"function": p, "test": a[-50:]}, nontrivial=True)
+        res.floor("object-type tests in setters", n, ctx.table("floors").get("setterkind_tests", 0))
+        res.notes.append("setter functions: " + ", ".join(sorted(inset)))
+        return res
+    return run
